@@ -44,6 +44,11 @@ pub struct WorkerExit {
     pub t_exit: Option<u64>,
     pub error: Option<String>,
     pub panicked: Option<String>,
+    /// crashed by the simulator at this virtual time (`crash_worker`)
+    pub crashed_at: Option<u64>,
+    /// the child's copies of the command channel and SCM socket descriptors
+    pub chan_fd: i32,
+    pub scm_fd: i32,
 }
 
 struct Cluster {
@@ -95,7 +100,7 @@ fn on_fork() -> Option<libc::pid_t> {
     let wp = c.wp as *mut World;
     let log_level = c.log_level.clone();
     let t_start = unsafe { (*wp).now };
-    let slot = { let mut e = exits.lock().unwrap(); e.push(WorkerExit { proc_id: 0, worker_index: idx, pid, t_start, ..Default::default() }); e.len() - 1 };
+    let slot = { let mut e = exits.lock().unwrap(); e.push(WorkerExit { proc_id: 0, worker_index: idx, pid, t_start, chan_fd: chan, scm_fd: scm, ..Default::default() }); e.len() - 1 };
     let exits2 = exits.clone();
     let handle = spawn_proc(wp, &format!("worker{idx}"), move || {
         let r = catch_unwind(AssertUnwindSafe(|| {
@@ -118,6 +123,20 @@ fn on_fork() -> Option<libc::pid_t> {
     unsafe { (*wp).tr(0xF0, idx as u64); }
     c.handles.push(handle);
     Some(pid)
+}
+
+/// Crash worker number `worker_index` (in fork order) now: see `World::crash_proc`. Called from an actor.
+pub fn crash_worker(w: &mut World, worker_index: u32) -> bool {
+    let g = CLUSTER.lock().unwrap();
+    let Some(c) = g.as_ref() else { return false };
+    let mut e = c.exits.lock().unwrap();
+    let Some(x) = e.iter_mut().find(|x| x.worker_index == worker_index) else { return false };
+    if x.t_exit.is_some() || x.crashed_at.is_some() { return false; }
+    let (pid, extra) = (x.proc_id, [x.chan_fd, x.scm_fd]);
+    if w.procs.get(pid).map(|p| p.state) != Some(crate::world::P_PARKED) { return false; }
+    w.crash_proc(pid, &extra);
+    x.crashed_at = Some(w.now);
+    true
 }
 
 // ------------------------------------------------------------------ interposed symbols
@@ -187,9 +206,12 @@ pub struct ClusterKnobs {
     pub worker: Knobs,
     pub worker_timeout: u32,
     pub workers: u16,
+    /// `worker_automatic_restart` of the main process
+    #[serde(default)]
+    pub automatic_restart: bool,
 }
 impl Default for ClusterKnobs {
-    fn default() -> Self { ClusterKnobs { worker: Knobs::default(), worker_timeout: 10, workers: 1 } }
+    fn default() -> Self { ClusterKnobs { worker: Knobs::default(), worker_timeout: 10, workers: 1, automatic_restart: false } }
 }
 
 pub fn cluster_config(k: &ClusterKnobs) -> Config {
@@ -199,7 +221,7 @@ pub fn cluster_config(k: &ClusterKnobs) -> Config {
         command_buffer_size: Some(w.command_buffer_size),
         max_command_buffer_size: Some(w.max_command_buffer_size),
         worker_count: Some(k.workers),
-        worker_automatic_restart: Some(false),
+        worker_automatic_restart: Some(k.automatic_restart),
         worker_timeout: Some(k.worker_timeout),
         buffer_size: Some(w.buffer_size),
         min_buffers: Some(w.min_buffers),
@@ -308,7 +330,9 @@ pub fn run_cluster(world: &mut Box<World>, knobs: &ClusterKnobs, setup: impl FnO
     let wp: *mut World = &mut **world;
     crate::world::proc_exit(wp);
     let handles = { let mut g = CLUSTER.lock().unwrap(); g.as_mut().map(|c| std::mem::take(&mut c.handles)).unwrap_or_default() };
-    for h in handles { let _ = h.join(); }
+    // a crashed worker's thread is parked for good (its stack and heap are the dead process's memory): never joined
+    let crashed: Vec<bool> = { let e = exits.lock().unwrap(); (0..handles.len()).map(|i| e.iter().any(|x| x.worker_index == i as u32 && x.crashed_at.is_some())).collect() };
+    for (i, h) in handles.into_iter().enumerate() { if !crashed[i] { let _ = h.join(); } }
     World::install(world);
     ON.store(false, Ordering::SeqCst);
     *CLUSTER.lock().unwrap() = None;
